@@ -1,4 +1,5 @@
 import Model.GConfig
+import Model.GConfigCache
 import Driver.Util
 /-! Line protocol for `Model/GConfig` (C03; the cache model of C10 adds its own requests).
 
@@ -83,6 +84,7 @@ structure DSt where
   doc : Option Y := none            -- the raw document
   data : Option Y := none           -- reduceAny result (model)
   loaded : Bool := false
+  cache : GConfigCache.Cache ((String × String) × Bool) := []
 
 def modelDims (d : DSt) : Option (List Dim) :=
   d.dims.mapM (fun dd => dd.sel.map (fun s => { names := dd.names, sel := s }))
@@ -127,6 +129,24 @@ def handle (d : DSt) (ws : List String) : DSt × String :=
           | some r => (match lookupPath r (splitPath p) with | some v => render v | none => "notfound")
           | none => "noconfig")
       | _, _ => "noconfig")
+  | ["req", _op, key, ty, fresh] =>
+    -- the specification of a request: the result of the same request on a fresh config (the
+    -- oracle `fresh`), delivered through the cache model with the injective (key, type) memo key
+    let r : GConfigCache.Req := { key := unescape key, ty := ty, iface := ty == "any" }
+    let conv : GConfigCache.Req → Option GConfigCache.TV := fun _ =>
+      if fresh == "err" || fresh == "panic" then none
+      else if fresh == "ok:nil" then some .nil
+      else some (.val ty fresh)
+    if fresh == "panic" then (d, "no-request-may-panic")
+    else
+      let res := GConfigCache.get (fun r => (GConfigCache.pairKey r, r.iface)) conv d.cache r
+      ({ d with cache := res.1 },
+        match res.2 with
+        | .ok (.val _ repr) => repr
+        | .ok .nil => "ok:nil"
+        | .err => "err"
+        | .panic => "panic")
+  | ["conc", _, _] => (d, "ok")
   | "wf" :: _ =>
     (d, match d.doc, modelDims d with
       | some y, some dims => showBool (WF dims y)
